@@ -433,3 +433,65 @@ def open_paths(files, opaque, p):
     import sys
 
     return _PathsProbe(p, p.get("exists", []))
+
+
+class _TermProbe:
+    def __init__(self, kind, p, files):
+        self.kind, self.p, self.files = kind, p, files
+
+    def run(self):
+        import signal
+
+        def alarm(sig, frm):
+            raise TimeoutError("did not terminate within 10 s")
+
+        old = signal.signal(signal.SIGALRM, alarm)
+        signal.alarm(10)
+        try:
+            if self.kind == "chain":
+                import uuid
+
+                from dissect.hypervisor.disk import hdd
+
+                ps = self.p["parents"]
+                n = len(ps)
+                gs = [uuid.UUID(int=k + 1) for k in range(n)] + [hdd.NULL_GUID]
+                d = hdd.Descriptor.__new__(hdd.Descriptor)
+                d.snapshots = hdd.Snapshots(None, [hdd.Shot(gs[k], gs[ps[k]]) for k in range(n)])
+                return len(d.get_snapshot_chain(gs[0])) <= n
+            if self.kind == "walk":
+                import io
+                import types
+
+                from dissect.hypervisor.descriptor import hyperv
+
+                buf = bytearray(self.p["size"])
+                for a, h in self.p["patches"]:
+                    b = bytes.fromhex(h)
+                    if 0 <= a < len(buf):
+                        buf[a: a + len(b)] = b[: len(buf) - a]
+                t = hyperv.HyperVStorageKeyTable(types.SimpleNamespace(fh=io.BytesIO(bytes(buf))), 0, self.p["size"])
+                return len(t.entries) <= self.p["size"]
+            if self.kind == "open":
+                from dissect.hypervisor.descriptor import hyperv
+
+                hv = hyperv.HyperVFile(self.files["img"])
+                return len(hv.object_tables) <= 2
+        finally:
+            signal.alarm(0)
+            signal.signal(signal.SIGALRM, old)
+
+
+@register("snapshot_chain")
+def open_chain(files, opaque, p):
+    return _TermProbe("chain", p, files)
+
+
+@register("hyperv_keytable")
+def open_keytable(files, opaque, p):
+    return _TermProbe("walk", p, files)
+
+
+@register("hyperv_file")
+def open_hvfile(files, opaque, p):
+    return _TermProbe("open", p, files)
